@@ -39,9 +39,9 @@ CHECKS = {
         note=TB + "Open defect KF-subsetEmpty is a KNOWN-FINDING (p & p for p = is_subset_p(set())).",
         tech="Lean 4 proof (case analysis per atom constructor, simp) + differential correspondence (opt)", ref="§7 C13"),
     "C12": dict(
-        text="Lean theorems: fuel monotonicity and determinism of the fuelled optimizer model (a result, once produced, is the result for every larger fuel), one-step termination on atoms; NOT proved: termination for every tree and the polynomial bound (stated in DESIGN.md). Tie and observation: the model never runs out of fuel and predicate.optimize always returns a predicate on the C01-C03 term spaces and on random trees of 60-400 nodes (structural agreement on every case); optimize* call counts on six growing families (at most quadratic; a measurement); purity by deep structural snapshots and fresh-copy comparison over random sequences of the eight analysis functions on one shared object.",
-        note=TB + "PARTIAL: the unbounded termination theorem and the polynomial bound are not proved; purity is decided by the correspondence (the Lean functions are pure by construction), not by a theorem of substance.",
-        tech="Lean 4 proof (fuel monotonicity/determinism) + differential correspondence + call-count measurement + snapshot histories", ref="§7 C12, §10"),
+        text="Lean theorems about the executable optimizer model, for every tree, constant type and quirk configuration (the code as it is included): C12_terminates, with the explicit linear bound on the recursion depth C12_depth_linear (fuel 2*w(p)+swapBit+1 <= 4*size+2 suffices; fuel = depth), C12_weight_le (the result is never heavier), C12_size_le, C12_andRoot_shrinks, fuel monotonicity/determinism; a cost model optimizeC (exact number of invocations, same answers: C12_cost_same_answer) with C12_calls_below (every recursive call is on a term of strictly smaller measure), C12_branching (<= 4 per invocation), a finite exponential bound C12_cost_le_exp and a linear bound on the and/or/not fragment C12_cost_linear_aon. NOT proved: a polynomial bound on the number of invocations in general. Tie and observation: model vs predicate.optimize structurally on the C01-C03 term spaces, random trees of 60-400 nodes, print-alike and string-twin constants; the model's exact invocation counter == the implementation's call count on ~3 900 cases; optimize* call counts on nine growing families (incl. the family that was exponential before fix cc7f1c3) against 20*size^2+2000 and a cubic-growth test; purity by deep structural snapshots and fresh-copy comparison over random histories of the eight analysis functions on one shared object, every call under a line-event budget.",
+        note=TB + "PARTIAL on one clause: the polynomial bound is measured (quadratic worst case on the model's exact counter, which is tied to the code), not proved; purity is decided by the correspondence (the Lean functions are pure by construction). Python's own stack: one model level is two Python frames.",
+        tech="Lean 4 proof (strong induction on the measure 2*weight+swap bit through the fuel; per-arm weight lemmas; ticked cost semantics) + differential correspondence of result and invocation count + growth measurement + snapshot histories", ref="§7 C12, §12.6"),
     "C07": dict(
         text="Lean theorems about the reference effectful evaluator evalE (outcome x ordered list of calls to instrumented leaves), for every probe table, tree and value: value laws for & | ^ ~, trace laws (left first; right only when the left does not decide; ^ always both), C07_guard_protects (left False => result False and the right operand is not called; dual for |), all_p/any_p = for-all/exists cut at the first counter-example/witness and True/False on an empty collection, comp_p = p(f(x)) with f called once first, tee_p = one call and True; C07_trace_is_traversal (induction over all trees) and C07_pure_agrees. Tie: the real classes with instrumented fn_p/comp_p/tee_p/property leaves answering True/False/raise by table - return value or exception class AND recorded call sequence == evalE and == a plain-Python reading: all trees <= 4 nodes, sampled/all trees of 5 nodes, random trees of 6-9 nodes, directed guard and 'of'-form trees (150 276 quick / 970 174 thorough cases).",
         note=TB + "These theorems are laws of the reference evaluator (they are what the property says); what ties them to the classes is the correspondence on each class's behaviour plus Python's compositional call semantics (trusted). Probes are deterministic functions of (id, argument) whose only effect is the log.",
@@ -102,7 +102,7 @@ def main():
             na.append({"property_id": pid, "reason": PENDING.get(pid, "check not built yet at this commit (work in progress; see DESIGN.md §7 for the plan)")})
     man = {
         "version": 1,
-        "setup_cmd": "cd lean && lake build PyPred driver driver_tt driver_pyval driver_construct driver_scope driver_parser driver_dot",
+        "setup_cmd": "cd lean && lake build PyPred driver driver_tt driver_pyval driver_construct driver_scope driver_parser driver_dot driver_cost",
         "hooks": {
             "guard": "PY_PREDICATE_VERIF",
             "enable": "no source hooks are needed: the checks import /repo in-process and instrument from outside (sys.settrace, monkey-patching inside the harness process); the variable is set by ./check for future use",
